@@ -160,6 +160,8 @@ def api_call(ex, st, args, ins, fn):
     if short == 'verifAllocLimit':
         st.ghost['alloc_limit'] = args[0]
         return None
+    if short == 'verifSymbolic':
+        return True
     if short == 'verifThorough':
         return ex.opts.get('tier') == 'thorough'
     if short == 'verifCase':
@@ -776,6 +778,12 @@ def m_big_bitop(ex, st, args, ins, fn):
 
 
 # ---------------------------------------------------------------- misc
+@model('reflect.TypeOf', 'reflect.ValueOf')
+def m_reflect_typeof(ex, st, args, ins, fn):
+    # only ever passed on to logging; any other use aborts as unsupported (opaque value)
+    return Opaque('reflect:%s@%s' % (fn['short'], ins.get('pos', '')))
+
+
 @model('time.Now')
 def m_time_now(ex, st, args, ins, fn):
     # nondeterministic instant: wall = nanoseconds (no monotonic reading), ext = seconds since year 1
